@@ -430,6 +430,7 @@ class Engine:
         self.facts = []  # (cond z3 Bool, Atom, NF value) : cond => atom == value
         self.ufacts = []  # universal facts: (fn k -> z3 Bool), instantiated on demand (never sent quantified)
         self.vec_table = {}
+        self.any_facts = []
         self._vcache = {}
         self.path_id = "p" + "".join("T" if d else "F" for d in prefix) if prefix else "p"
 
@@ -588,6 +589,46 @@ class Engine:
         else:
             ob = Obligation(full, kind, "unknown", detail + f" | goal: {goal} | reason: {self.solver.reason_unknown()}", None, secs, "z3", self.path_id)
             ob.smt2 = self._smt2(goal)
+        self.obligations.append(ob)
+        return ob.status == "proved"
+
+    def oblige_nra(self, name, goal, detail=""):
+        """Obligation over nonlinear real arithmetic: uninterpreted function applications are
+        generalised to fresh constants (sound for validity) and the query goes to nlsat."""
+        full = f"{self.unit}/{name}"
+        exprs = list(self.pc) + [goal]
+        table = {}
+
+        def collect(e):
+            if z3.is_app(e):
+                if e.num_args() > 0 and e.decl().kind() == z3.Z3_OP_UNINTERPRETED and e.sort() in (z3.RealSort(), z3.IntSort(), z3.BoolSort()):
+                    if e.get_id() not in table:
+                        table[e.get_id()] = (e, z3.Const(f"g!{len(table)}", e.sort()))
+                    return
+                for c in e.children():
+                    collect(c)
+        for e in exprs:
+            collect(e)
+        subs = list(table.values())
+        ab = [z3.substitute(e, *subs) if subs else e for e in exprs]
+        s = z3.Solver()
+        s.set("timeout", self.timeout_ms)
+        for c in ab[:-1]:
+            if not _has_uf_or_quant(c):
+                s.add(c)
+        s.add(z3.Not(ab[-1]))
+        t0 = time.time()
+        r = s.check()
+        secs = time.time() - t0
+        self.solver_secs += secs
+        self.queries += 1
+        if r == z3.unsat:
+            ob = Obligation(full, "vc", "proved", detail, None, secs, "z3-nra", self.path_id)
+        elif r == z3.sat:
+            ob = Obligation(full, "vc", "refuted", detail + f" | goal: {goal}", _model_dict(s.model()), secs, "z3-nra", self.path_id)
+        else:
+            ob = Obligation(full, "vc", "unknown", detail + f" | reason: {s.reason_unknown()}", None, secs, "z3-nra", self.path_id)
+            ob.smt2 = s.to_smt2()
         self.obligations.append(ob)
         return ob.status == "proved"
 
@@ -1733,6 +1774,16 @@ def _concrete_cmp(op, l, r):
     if isinstance(op, ast.GtE):
         return l >= r
     raise Unsupported(type(op).__name__)
+
+
+def _has_uf_or_quant(e):
+    if z3.is_quantifier(e):
+        return True
+    if z3.is_app(e):
+        if e.num_args() > 0 and e.decl().kind() == z3.Z3_OP_UNINTERPRETED:
+            return True
+        return any(_has_uf_or_quant(c) for c in e.children())
+    return False
 
 
 def _model_dict(m):
